@@ -95,11 +95,11 @@ ben('C13', 'list-tokens-rename-local', [('utils.py', "    result = []\n    if is
 # ---- C07 ---------------------------------------------------------------------------------------------
 EX = 'external.py'
 mut('C07', 'cross-rate-inverted', [(EX, "self.AddVariable(code, desc,  '{0}/{1}'.format(local, foreign))", "self.AddVariable(code, desc,  '{1}/{0}'.format(local, foreign))")], 'defined_as_local_over_foreign')
-mut('C07', 'receive-uses-target-over-source', [(EX, "cross_rate = self.Parent.GetCrossRate(source_currency, target_currency)", "cross_rate = self.Parent.GetCrossRate(target_currency, source_currency)")], ['receiver_term', 'currency_position_loses'])
+mut('C07', 'receive-uses-target-over-source', [(EX, "cross_rate = self.Parent.GetCrossRate(source_currency, target_currency)", "cross_rate = self.Parent.GetCrossRate(target_currency, source_currency)")], ['receiver_term', 'currency_position_loses', 'values_after_currency_leg', 'currency_codes_are_plain'])
 mut('C07', 'send-numeraire-sign', [(EX, "            '-' + variable_name + '*' + currency_variable_name)", "            '+' + variable_name + '*' + currency_variable_name)")], 'numeraire_position_loses')
 mut('C07', 'receive-numeraire-uses-target-rate', [(EX, "                                 self.Parent['XR'].GetVariableName(source_currency))", "                                 self.Parent['XR'].GetVariableName(target_currency))")], 'numeraire_position_gains')
 mut('C07', 'flow-not-converted', [('models.py', "                term = fx._ReceiveMoney(target_sector=target_sector, source_sector=source_sector,\n                                        variable_name=full_variable_name)", "                fx._ReceiveMoney(target_sector=target_sector, source_sector=source_sector,\n                                        variable_name=full_variable_name)\n                term = '+' + full_variable_name")], ['cross_zone_term', 'after_fx_legs'])
-mut('C07', 'no-refusal', [('models.py', "                if self.ExternalSector is None:\n                    msg =", "                if False:\n                    msg =")], ['no_cross_flow', 'LogicError', 'unexpected', 'outside'])
+mut('C07', 'no-refusal', [('models.py', "                if self.ExternalSector is None:\n                    msg =", "                if False:\n                    msg =")], ['no_cross_flow', 'LogicError', 'unexpected', '_GenerateRegisteredCashFlows'])
 mut('C07', 'source-not-debited', [('models.py', "            source_sector.AddCashFlow('-' + full_variable_name, eqn=None,", "            source_sector.AddCashFlow('+' + full_variable_name, eqn=None,")], 'source_pays')
 ben('C07', 'send-rename-locals', [(EX, "        currency = source_sector.CurrencyZone.Currency\n        currency_variable_name = self.Parent['XR'].GetVariableName(currency)\n        self.EquationBlock['NET_' + currency].AddTerm('+' + variable_name)\n        self.EquationBlock['NET_NUMERAIRE'].AddTerm(\n            '-' + variable_name + '*' + currency_variable_name)",
     "        cur = source_sector.CurrencyZone.Currency\n        rate_name = self.Parent['XR'].GetVariableName(cur)\n        self.EquationBlock['NET_' + cur].AddTerm('+' + variable_name)\n        self.EquationBlock['NET_NUMERAIRE'].AddTerm(\n            '-' + variable_name + '*' + rate_name)")])
